@@ -10,6 +10,8 @@ argv[1] = behaviour:
   close_stdin       closes stdin, then sleeps (still holds stdout)
   slow_start:<s>    sleeps s seconds, then behaves well
   sigterm_slow:<s>  on SIGTERM keeps running s seconds before exiting
+  stderr_burst:<n>  writes n bytes of diagnostics to stderr (non-blocking, as much as fits), then behaves well and
+                    keeps adding a line of diagnostics per request
 """
 import json
 import os
@@ -101,6 +103,21 @@ elif beh == "close_stdin":
     out({"jsonrpc": "2.0", "method": "notifications/ready"})
     os.close(0)
     time.sleep(3600)
+elif beh.startswith("stderr_burst:"):
+    import fcntl
+    total = int(beh.split(":")[1])
+    fl = fcntl.fcntl(2, fcntl.F_GETFL)
+    fcntl.fcntl(2, fcntl.F_SETFL, fl | os.O_NONBLOCK)
+    line = b"diagnostic " + b"e" * 1000 + b"\n"
+    written = 0
+    deadline = time.time() + 1.0
+    while written < total and time.time() < deadline:
+        try:
+            written += os.write(2, line)
+        except (BlockingIOError, OSError):
+            time.sleep(0.01)
+    out({"jsonrpc": "2.0", "method": "notifications/ready"})
+    serve()
 elif beh.startswith("slow_start:"):
     time.sleep(float(beh.split(":")[1]))
     out({"jsonrpc": "2.0", "method": "notifications/ready"})
